@@ -137,7 +137,22 @@ def run_tlc(module: str, cfg: str, env: dict[str, str] | None = None, workers: i
     res = {"states": 0, "distinct": 0, "viols": [], "inv_errors": 0, "prints": [], "out": out,
            "rc": p.returncode, "wall_s": time.time() - t0, "module": module, "cfg": cfg}
     fatal = None
+    # TLC wraps a printed tuple wider than 80 columns over several lines (`<< "VIOL",` / one element per line / `>>`): join them
+    joined, acc = [], None
     for line in out.splitlines():
+        if acc is not None:
+            acc += " " + line.strip()
+            if line.rstrip().endswith(">>"):
+                joined.append(acc.replace('<< "', '<<"', 1).replace(" >>", ">>"))
+                acc = None
+            continue
+        if line.startswith("<< ") and not line.rstrip().endswith(">>"):
+            acc = line.rstrip()
+            continue
+        joined.append(line)
+    if acc is not None:
+        joined.append(acc)
+    for line in joined:
         if _VIOL.match(line):
             inner = line.strip()[2:-2]
             res["viols"].append(_split_top(inner)[1:])
